@@ -13,6 +13,7 @@ import (
 	"fmt"
 	"math"
 	"math/rand"
+	"os"
 	"sort"
 	"strconv"
 	"strings"
@@ -540,6 +541,11 @@ func TestDriver(t *testing.T) {
 	if env.Out == "" {
 		t.Skip("VERIF_OUT not set")
 	}
+	// keep the pebble directories of t.TempDir() on tmpfs when there is one: every Notify is a synced
+	// batch, and on a shared disk the fsyncs dominate the run time
+	if st, err := os.Stat("/dev/shm"); err == nil && st.IsDir() && os.Getenv("VERIF_KEEP_TMPDIR") == "" {
+		_ = os.Setenv("TMPDIR", "/dev/shm")
+	}
 	buildPool()
 	w, err := emit.NewWriter(env.Out)
 	if err != nil {
@@ -565,7 +571,7 @@ func TestDriver(t *testing.T) {
 	if env.Tier == "thorough" {
 		enumerate(6, 3, put)
 	} else {
-		enumerate(4, 2, put)
+		enumerate(3, 3, put)
 	}
 	for i := 0; i < env.N; i++ {
 		put(gen(r))
